@@ -311,6 +311,8 @@ def oracle_pipeline(form, ans):
     bad = []
     if ans.startswith('TIMEOUT') or ans.startswith('<missing>'):
         return bad
+    if ans.startswith('ERR RecursionError'):
+        return []      # reported by the tie stage under signature prove_tautology/RecursionError (D17)
     if ans.startswith('ERR'):
         return [('prove_tautology/raises', f'prove_tautology pipeline raised {ans} on a propositional pattern')]
     d = fields(ans)
@@ -472,6 +474,13 @@ def run(tier, seed):
                 timeouts += 1
                 R.case(line, False, kind + ':timeout')
                 continue
+            if i is not None and i.startswith('ERR RecursionError') and not (m or '').startswith('ERR'):
+                # D17: CPython's C recursion limit hit inside Pattern.__eq__; the model has no such limit
+                R.case(line, False, kind + ':recursion')
+                R.violation('prove_tautology/RecursionError',
+                            f'implementation raises RecursionError (input {line}); model answers {m[-40:]}',
+                            {'input': line, 'got': i, 'model': m})
+                continue
             R.case(line, nontrivial(line, i or ''), kind)
             if norm(m) != norm(i):
                 mismatches.append((line, m, i))
@@ -536,6 +545,10 @@ def run(tier, seed):
             continue
         constrained = any(t[0] == 'c' for t in f.split())
         R.case('Q ' + f, True, 'proofs_constrained' if constrained else 'proofs')
+        if a.startswith('ERR RecursionError'):
+            R.violation('prove_tautology/RecursionError', f'implementation raises RecursionError (input Q {f})',
+                        {'input': 'Q ' + f, 'got': a})
+            continue
         if a.startswith('ERR'):
             sig = 'proof-layer/constrained-metavar/raises:' + a.split()[-1] if constrained else 'proof-layer/raises'
             R.violation(sig, f'proof construction raised {a} (input {f})', {'input': 'Q ' + f, 'got': a})
